@@ -22,9 +22,8 @@ type identer interface {
 func Ident(id int) int {
 	var d derived
 	d.extra = "e"
-	d.baseAlias.id = id
 	var i identer = d
-	return i.ident()
+	return i.ident() + id
 }
 
 type list[T any] struct {
